@@ -596,6 +596,20 @@ def timing_variants(rng, create, morph, facts, k):
     cods = [o for o in morph if o[1] != DOM]  # codomains and, after them, the images the caller asserts
     vs.append(("dom-and-cod-in-different-closes", list(create) + facts + doms + [["close"]] + cods + [["close"]]))
     vs.append(("cod-then-facts-then-dom", list(create) + cods + [["close"]] + facts + [["close"]] + doms + [["close"]]))
+    seen, first, second = set(), [], []
+    for o in morph:
+        key = (o[1], o[2]) if o[1] in (DOM, COD) else None
+        if key is not None and key in seen:
+            second.append(o)
+        else:
+            first.append(o)
+            if key is not None:
+                seen.add(key)
+    if second:
+        # a second domain/codomain for a morphism arrives after everything else was closed: the two
+        # models are identified although no row of the morphism diagram is new afterwards
+        vs.append(("second-codomain-after-close", list(create) + first + facts + [["close"]] + second + [["close"]]))
+        k += 1
     for j in range(max(0, k - len(vs))):
         allops = gen.dep_shuffle(rng, morph + facts, bound)
         vs.append(("shuffled-with-closes-%d" % j, gen.with_closes(rng, create, allops, closes=(1, 3))))
